@@ -34,7 +34,7 @@ ANCHORS = [
     "acnportal.acnsim.interface:Interface.remaining_amp_periods",
     "acnportal.algorithms.base_algorithm:BaseAlgorithm.run",
 ]
-REQUIRED = ["deep_copied_algorithm_and_simulator_runs", "interface_queried_at_registration", "invocations_judged", "invocations_without_event", "runs_judged", "mutating_twins", "active_sets_judged",
+REQUIRED = ["runs_resumed_after_a_scheduler_exception", "deep_copied_algorithm_and_simulator_runs", "interface_queried_at_registration", "invocations_judged", "invocations_without_event", "runs_judged", "mutating_twins", "active_sets_judged",
             "sessions_filtered_as_satisfied", "pilot_queries_judged", "infrastructure_judged", "regime:mr-None", "regime:mr-1",
             "regime:mr-k", "inner:scripted", "inner:uncontrolled", "inner:sorted"]
 BUDGET_S = {"quick": 240, "thorough": 3000}
@@ -52,7 +52,8 @@ def cases(seed, tier):
             d = gen.scenario(rng, sched="uncontrolled", noise_p=0.0)
         else:
             d = gen.scenario(rng, sched="sorted", kinds=("EVSE", "FR"), noise_p=0.0, est=None)
-        out.append({"desc": d, "copy_pair": rng.choice(["dict", "tuple"]) if rng.random() < 0.15 else None})
+        out.append({"desc": d, "copy_pair": rng.choice(["dict", "tuple"]) if rng.random() < 0.15 else None,
+                    "fault_at": rng.choice([0, 1, 2, 3, 5]) if rng.random() < 0.25 else None})
     return out
 
 
@@ -89,7 +90,11 @@ def scribble(x, depth=0):
 PREQ = {"n": 0, "failed": 0}
 
 
-def make_wrapper(inner, mutate, rec):
+class InjectedFault(Exception):
+    pass
+
+
+def make_wrapper(inner, mutate, rec, fault_at=None, fault_box=None):
     from acnportal.algorithms import BaseAlgorithm
 
     class Rec(BaseAlgorithm):
@@ -116,6 +121,11 @@ def make_wrapper(inner, mutate, rec):
         def schedule(self, active):
             i = self.interface
             t = i.current_time
+            if fault_at is not None and not fault_box.get("fired") and len(rec) == fault_at:
+                # fault model of C09: the scheduling algorithm raises once in this period; the caller calls run() again
+                fault_box["fired"] = True
+                fault_box["t"] = t
+                raise InjectedFault(f"injected at invocation {fault_at} (period {t})")
             o = {"t": t, "dt": i.current_datetime, "period": i.period, "mr": i.max_recompute_time,
                  "active": [dict(station_id=a.station_id, session_id=a.session_id, requested=a.requested_energy,
                                  delivered=a.energy_delivered, arrival=a.arrival, departure=a.departure,
@@ -181,10 +191,10 @@ def make_wrapper(inner, mutate, rec):
     return Rec()
 
 
-def _run(d, mutate, copy_pair=False):
+def _run(d, mutate, copy_pair=False, fault_at=None, fault_box=None):
     rec = []
     inner = build.build_scheduler(d)
-    sch = make_wrapper(inner, mutate, rec)
+    sch = make_wrapper(inner, mutate, rec, fault_at, fault_box)
     sim, evs = build.build_sim(d, scheduler=sch)
     if copy_pair:
         # an experiment record holding the algorithm and the simulator is deep-copied and the COPY is run: its scheduler must
@@ -196,6 +206,8 @@ def _run(d, mutate, copy_pair=False):
     probe.step_limit = simrun.last_event_ts(d) + 5
     probe.attach()
     probe.run()
+    if isinstance(probe.exception, InjectedFault):
+        probe.run()  # the caller catches the scheduler's exception and continues the run
     probe.detach()
     return sim, evs, probe, rec
 
@@ -211,7 +223,10 @@ def _net_description(net):
 def run_case(case, obs):
     d = case["desc"]
     nd = d["network"]
-    sim, evs, probe, rec = _run(d, False, copy_pair=case.get("copy_pair"))
+    fbox = {}
+    sim, evs, probe, rec = _run(d, False, copy_pair=case.get("copy_pair"), fault_at=case.get("fault_at"), fault_box=fbox)
+    if fbox.get("fired"):
+        obs.ev("runs_resumed_after_a_scheduler_exception")
     if case.get("copy_pair"):
         obs.ev("deep_copied_algorithm_and_simulator_runs")
     wit = dict(scenario=d, copy_pair=case.get("copy_pair"))
@@ -237,6 +252,8 @@ def run_case(case, obs):
     if got != exp:
         obs.violate("invocation_periods", f"scheduler ran in periods {got}, required {exp} (max_recompute={mr})", **wit)
     traced = [t for t, letter, _ in probe.trace if letter == "S"]
+    if fbox.get("fired") and fbox["t"] in traced:
+        traced.remove(fbox["t"])  # the call that raised; the completed invocations are what the statement is about
     if traced != got:
         obs.violate("invocation_periods", f"scheduler.run calls {traced} vs schedule() calls {got}", **wit)
     strs = probe.period_strings()
